@@ -20,6 +20,7 @@ import (
 	"github.com/Eyevinn/mp4ff/internal/vsim/sim"
 	"github.com/Eyevinn/mp4ff/internal/vsim/work"
 	"github.com/Eyevinn/mp4ff/mp4"
+	"github.com/Eyevinn/mp4ff/sei"
 )
 
 // C20 — independent objects can be used from concurrent goroutines.
@@ -151,6 +152,21 @@ type c20Dev struct {
 	buf []byte // written bytes (sink side)
 }
 
+// c20FailWriter refuses its failAt-th write (1-based; 0 = never), accepting everything else.
+type c20FailWriter struct {
+	dev    *c20Dev
+	n      int
+	failAt int
+}
+
+func (w *c20FailWriter) Write(p []byte) (int, error) {
+	w.n++
+	if w.n == w.failAt {
+		return 0, sim.ErrInjected
+	}
+	return w.dev.Write(p)
+}
+
 func (d *c20Dev) point() {
 	if d.tk.sch != nil {
 		d.tk.sch.Yield()
@@ -221,6 +237,28 @@ func c20Exec(tk *c20Task, sc *c20Script, st c20Step, shared [][]byte, annexb [][
 			b, err := md.ReadData(start, size, tk.rs)
 			out = append(hashOf(b), errStr(err)...)
 		}
+	case "seiWrite":
+		// SEI messages parsed from the task's own copy of an Annex B stream are written back, into a healthy writer or
+		// into one whose k-th write is refused
+		ab := annexb[st.arg%len(annexb)]
+		spss, _ := avc.GetParameterSetsFromByteStream(ab)
+		var sps *avc.SPS
+		if len(spss) > 0 {
+			sps, _ = avc.ParseSPSNALUnit(spss[0], true)
+		}
+		h := sha256.New()
+		for _, n := range avc.ExtractNalusOfTypeFromByteStream(avc.NALU_SEI, ab, false) {
+			msgs, err := avc.ParseSEINalu(n, sps)
+			if err != nil && len(msgs) == 0 {
+				fmt.Fprintf(h, "parse:%v", err)
+				continue
+			}
+			w := &c20FailWriter{dev: &c20Dev{tk: tk}, failAt: (st.arg / 8) % 4} // 0 = healthy
+			werr := sei.WriteSEIMessages(w, msgs)
+			fmt.Fprintf(h, "%d/%v/", len(msgs), werr)
+			h.Write(w.dev.buf)
+		}
+		out = h.Sum(nil)[:8]
 	case "fault":
 		// a stream that ends inside a box header or body: the decode must fail the same way for everyone
 		var x []byte
@@ -433,7 +471,11 @@ func c20DrawScript(t *sim.Tape, nInputs int, ins []c20Input) c20Script {
 				sc.steps = append(sc.steps, c20Step{"info", t.Draw(3)})
 			}
 		case 11:
-			sc.steps = append(sc.steps, c20Step{"fault", t.Draw(20)})
+			if t.Bool() {
+				sc.steps = append(sc.steps, c20Step{"seiWrite", t.Draw(64)})
+			} else {
+				sc.steps = append(sc.steps, c20Step{"fault", t.Draw(20)})
+			}
 		case 0, 1:
 			sc.steps = append(sc.steps, c20Step{"info", t.Draw(3)})
 		case 2:
@@ -645,6 +687,10 @@ func c20Run(r *sim.Run) {
 	for ti := range scripts {
 		solo := &c20Task{}
 		sc := &scripts[ti]
+		// "alone" means alone in the process too: objects the concurrent phase (or the previous solo script) left in
+		// sync.Pools are dropped first
+		runtime.GC()
+		runtime.GC()
 		for _, st := range sc.steps {
 			c20Exec(solo, sc, st, shared, annexb, keymat)
 		}
